@@ -331,14 +331,16 @@ impl<T: Clone + Default> ColumnData<T> {
                     forall|s: int| 0 <= s < slot && bit_at(present@, s) ==> was_shown(shown_since(seen0, visit.seen()), (*base + s) as usize),      //#shown_every_set_slot_below
                     forall|a: int, b: int| 0 <= a < b < visit.seen().len() - seen0.len() ==>
                         (#[trigger] visit.seen()[seen0.len() + a]).0 < (#[trigger] visit.seen()[seen0.len() + b]).0,      //#shown_in_increasing_row_order
-//@before "visit.call(base + slot"
-                        let ghost s_before = shown_since(seen0, visit.seen());
-//@after "visit.call(base + slot"
-                        proof {
+//@loopstart 2
+                    let ghost s_before = shown_since(seen0, visit.seen());
+//@loopend 2
+                    proof {
+                        if bit_at(present@, slot as int) {
                             let p = ((*base + slot) as usize, values@[slot as int]);
                             assert(shown_since(seen0, visit.seen()) =~= s_before.push(p));
                             lemma_shown_mono(s_before, p);
                         }
+                    }
 //@afterloop 1
                 proof {
                     let sh = shown_since(seen0, visit.seen());
